@@ -32,7 +32,7 @@ PROFILES = {
     # fill3_sample: simulated walks of LLexFill for longer contents;
     # extra_programs: programs (beyond all_sites_programs) that get seeded
     # single sites and parentheses in addition to the all-spaces layout
-    'quick': dict(ex_fuel=1, all_sites_programs=15, sampled_sites=2,
+    'quick': dict(ex_fuel=1, all_sites_programs=15, sampled_sites=1,
                   extra_programs=None,
                   sim_num=24, sim_fuel=4, multi_num=48, multi_depth=4,
                   fill_len=2, fill3_sample=None, hosts=3, shards=6),
